@@ -34,6 +34,8 @@ structure St where
   next : Nat := 0                 -- object id counter
   spec : List (K × V) := []       -- sorted association list
   plain : Bool := false           -- tree created without destroy notifiers: nothing is ever destroyed
+  konly : Bool := false           -- only a key notifier
+  vonly : Bool := false           -- only a value notifier
 
 def fmtPair (p : K × V) : String := s!"{p.1.1}:k{p.1.2}:v{p.2}"
 def fmtLog (d : List (K × V)) : String := "[" ++ " ".intercalate (d.map fun p => s!"k{p.1.2} v{p.2}") ++ "]"
@@ -42,11 +44,17 @@ partial def fmtShape : BT K V → String
   | .nil => "."
   | .node l k _ r => "(" ++ fmtShape l ++ " " ++ toString k.1 ++ " " ++ fmtShape r ++ ")"
 
-def fmtLogP (plain : Bool) (d : List (K × V)) : String := if plain then "[]" else fmtLog d
+/-- which notifiers the tree was given: 0 both, 1 none, 2 key only, 3 value only -/
+def fmtLogP (mode : Nat) (d : List (K × V)) : String :=
+  match mode with
+  | 1 => "[]"
+  | 2 => "[" ++ " ".intercalate (d.map fun p => s!"k{p.1.2}") ++ "]"
+  | 3 => "[" ++ " ".intercalate (d.map fun p => s!"v{p.2}") ++ "]"
+  | _ => fmtLog d
 
 def sd (a b : String) : String := if a = b then a else a ++ " SPECDIFF " ++ b
 
-def fmtOut (plain : Bool) : Out K V → String
+def fmtOut (plain : Nat) : Out K V → String
   | .ins n d => s!"n={n} d={fmtLogP plain d}"
   | .rem f n d => (if f then "T" else "F") ++ s!" n={n} d={fmtLogP plain d}"
   | .got none => "nil"
@@ -60,17 +68,20 @@ def doOp (s : St) (op : Op K V) (bump : Bool) : IO (St × Bool) := do
   | none => IO.println "fault"; return (s, true)
   | some (t', o) =>
     let (sp', so) := specStep cmpK s.spec op
-    IO.println (sd (fmtOut s.plain o) (fmtOut s.plain so))
+    let mode := if s.plain then 1 else if s.konly then 2 else if s.vonly then 3 else 0
+    IO.println (sd (fmtOut mode o) (fmtOut mode so))
     return ({ s with t := t', spec := sp', next := if bump then s.next + 1 else s.next }, false)
 
 def step (s : St) (toks : List String) : IO (St × Bool) := do
   match toks with
   | "new" :: ty :: flags =>
     let plain := flags.contains "plain"
+    let konly := flags.contains "konly"
+    let vonly := flags.contains "vonly"
     match ty with
-    | "bst" => IO.println "ok"; return ({ t := .bst (.nil, 0), plain := plain }, false)
-    | "avl" => IO.println "ok"; return ({ t := .avl (.nil, 0), plain := plain }, false)
-    | "rb" => IO.println "ok"; return ({ t := .rb (.nil, 0), plain := plain }, false)
+    | "bst" => IO.println "ok"; return ({ t := .bst (.nil, 0), plain := plain, konly := konly, vonly := vonly }, false)
+    | "avl" => IO.println "ok"; return ({ t := .avl (.nil, 0), plain := plain, konly := konly, vonly := vonly }, false)
+    | "rb" => IO.println "ok"; return ({ t := .rb (.nil, 0), plain := plain, konly := konly, vonly := vonly }, false)
     | _ => IO.println "bad-op"; return (s, false)
   | ["ins", o] =>
     match o.toNat? with
